@@ -174,7 +174,12 @@ def run(chk) -> None:
                 for g in guard_txt:
                     for x in ast.walk(g):
                         if isinstance(x, ast.Attribute) and isinstance(x.value, ast.Name) and x.value.id == "self" and (x.attr == k or x.attr in readers - {"process_command", "run", "__init__", "schedule_tick"}):
-                            consulted = True
+                            scope = [g] + ([repo.methods(RUNNER)[x.attr]] if x.attr in repo.methods(RUNNER) else [])
+                            from ..astx import isinstance_classes
+                            filt = [c for sc_ in scope for c in isinstance_classes(sc_)]
+                            # a filter by tick class must include the class that carries delayed step work
+                            if not filt or "TickAddEvent" in [c.split(".")[-1] for c in filt]:
+                                consulted = True
                 chk.ob("C03.R2", f"idle is announced only after consulting `{k}` (it can hold a delayed retry)", consulted, m=mr, node=c, fn=pc,
                        instance=f"idle-path-consults:{k}",
                        reason=f"WorkflowIdleEvent can be published while a delayed TickAddEvent waits in `self.{k}`: nothing between CommandScheduleIdleCheck and the publication reads it")
@@ -250,6 +255,9 @@ TWINS = [
     Twin("idle ignores in_progress", _P, "        if worker_state.queue or worker_state.in_progress:\n            return False", "        if worker_state.queue:\n            return False", "C03.R2"),
     Twin("idle returns inside loop", _P, "        if worker_state.queue or worker_state.in_progress:\n            return False\n\n    return True", "        if worker_state.queue or worker_state.in_progress:\n            return False\n        return True\n    return True", "C03.R2"),
     Twin("idle check jumps the queue", _P, "                self.tick_buffer.append(TickIdleCheck())", "                self.tick_buffer.insert(0, TickIdleCheck())", "C03.R2"),
+    Twin("idle ignores scheduled retries", _P, "if not self._idle_check_pending and not self._has_scheduled_step_work():", "if not self._idle_check_pending:", "C03.R2"),
+    Twin("idle consults the wrong timer kind", _P, "            isinstance(tick, TickAddEvent) for _, _, tick in self.scheduled_wakeups", "            isinstance(tick, TickTimeout) for _, _, tick in self.scheduled_wakeups", "C03.R2"),
+    Twin("benign: heap consulted inline", _P, "if not self._idle_check_pending and not self._has_scheduled_step_work():", "if not self._idle_check_pending and not any(isinstance(t, TickAddEvent) for _, _, t in self.scheduled_wakeups):", None),
     Twin("unhandled idle constant", _P, "idle=_check_idle_state(state),", "idle=not state.workers[next(iter(state.workers))].queue,", "C03.R4"),
     Twin("benign: drain condition reordered", _P, "            len(worker_state.queue) > 0\n            and len(worker_state.in_progress) < worker_state.config.num_workers", "            len(worker_state.in_progress) < worker_state.config.num_workers\n            and worker_state.queue", None),
     Twin("benign: idle predicate split", _P, "        if worker_state.queue or worker_state.in_progress:\n            return False", "        if worker_state.queue:\n            return False\n        if worker_state.in_progress:\n            return False", None),
